@@ -19,13 +19,17 @@ Inductive pure : expr -> Prop :=
 | P_eq neg a b : pure a -> pure b -> pure (EEq neg a b)
 | P_not a : pure a -> pure (ENot a)
 | P_tuple es : Forall pure es -> pure (ETuple es)
-| P_record n fs es : Forall pure es -> pure (ERecord n fs es)
+| P_record n decl fs es : Forall pure es -> pure (ERecord n decl fs es)
 | P_field e f : pure e -> pure (EField e f)
 | P_ctor0 u c : pure (ECtor u c None)
 | P_ctor1 u c a : pure a -> pure (ECtor u c (Some a))
 | P_slice es : Forall pure es -> pure (ESlice es).
 
 Definition two_or_three (n:nat) : Prop := n = 2 \/ n = 3.
+
+(** a record literal mentions every declared field exactly once, in any order *)
+Definition fields_ok (written decl:list string) : Prop :=
+  NoDup written /\ NoDup decl /\ List.length written = List.length decl /\ incl written decl.
 
 Section WF.
 (** [strict = true] additionally demands [pure] arguments in partial applications *)
@@ -36,7 +40,7 @@ Variable ctor_ok : string -> string -> bool -> Prop.
 (** The proved fragment.  Every construct of MiniFo has a rule; the side conditions are:
     binders and referenced variables are not reserved ([_…], [New_…]); both branches of an [if] agree on
     being unit; tuples / destructurings have 2 or 3 components; constructors are declared;
-    library functions are source-level ones. *)
+    library functions are source-level ones; a record literal mentions every declared field once. *)
 Inductive wfe : expr -> Prop :=
 | W_int z : wfe (EInt z)
 | W_str s : wfe (EStr s)
@@ -58,7 +62,8 @@ Inductive wfe : expr -> Prop :=
 | W_pipecall a f args u : wfe a -> reserved f = false -> Forall wfe args -> wfe (EPipeCall a f args u)
 | W_pipeext a fn args u : wfe a -> src_fn fn = true -> Forall wfe args -> wfe (EPipeExt a fn args u)
 | W_tuple es : Forall wfe es -> two_or_three (List.length es) -> wfe (ETuple es)
-| W_record name fields es : Forall wfe es -> wfe (ERecord name fields es)
+| W_record name decl fields es :
+    Forall wfe es -> fields_ok fields decl -> wfe (ERecord name decl fields es)
 | W_field e f : wfe e -> wfe (EField e f)
 | W_ctor0 u c : ctor_ok u c false -> wfe (ECtor u c None)
 | W_ctor1 u c a : ctor_ok u c true -> wfe a -> wfe (ECtor u c (Some a))
@@ -159,9 +164,9 @@ Inductive peval (env:genv) : nat -> expr -> gval -> Prop :=
 | PE_tuple k es gvs :
     pevals env k es gvs -> two_or_three (List.length es) ->
     peval env k (ETuple es) (GVStruct (tuple_struct (List.length gvs)) (combine tuple_fields gvs))
-| PE_record k n fs es gvs :
-    pevals env k es gvs -> List.length fs = List.length es ->
-    peval env k (ERecord n fs es) (GVStruct n (combine fs gvs))
+| PE_record k n decl fs es gvs gfs :
+    pevals env k es gvs -> List.length fs = List.length es -> arrange decl (combine fs gvs) = Some gfs ->
+    peval env k (ERecord n decl fs es) (GVStruct n gfs)
 | PE_field k e f tn gfs gv :
     peval env k e (GVStruct tn gfs) -> lookup f gfs = Some gv -> peval env k (EField e f) gv
 | PE_ctor0 k u c :
